@@ -30,3 +30,5 @@ mod polynomial;
 mod prng;
 pub mod topology;
 pub mod vdaf;
+#[cfg(prio_verif)]
+pub mod verif;
